@@ -8,12 +8,14 @@ G == JsonDeserialize(IOEnv.GRAPH)
 NDuts == Len(G.duts)
 
 VARIABLES d,   \* which DUT of the batch this behaviour is about
-          s    \* implementation state (node of G.duts[d]); -1 = edge not yet known
-vars == <<d, s, ep, hold, pk, w, oprev, obs>>
+          s,   \* implementation state (node of G.duts[d]); -1 = edge not yet known
+          ph   \* flips on a step that changes nothing else: no step of Next is a stuttering step, so WF_vars(Next)
+               \* cannot be satisfied by leaving a hung state that still has another way out (see Progress*)
+vars == <<d, s, ph, ep, hold, pk, w, oprev, obs>>
 
 C == G.duts[d].cfg
 
-Init == /\ d \in 1..NDuts /\ s = 0 /\ CInit
+Init == /\ d \in 1..NDuts /\ s = 0 /\ ph = 0 /\ CInit
 
 Step(iv) ==
   /\ s >= 0
@@ -22,8 +24,9 @@ Step(iv) ==
        THEN LET e == G.duts[d].succ[s + 1][k] IN
             /\ s' = e.d /\ d' = d
             /\ CStep(C, NormI(C, iv), NormO(C, e.o))
+            /\ ph' = IF s' = s /\ cvars' = cvars THEN 1 - ph ELSE 0
        ELSE /\ PrintT(<<"NEED", d, s, iv>>)
-            /\ s' = -1 /\ d' = d /\ UNCHANGED cvars
+            /\ s' = -1 /\ d' = d /\ ph' = 0 /\ UNCHANGED cvars
 
 Next == \E iv \in Inputs(C) : Step(iv)
 
@@ -40,6 +43,10 @@ DefsWellFormed == s # 0 \/ LayoutWellFormed(C)
 (* progress under cooperation: producer offering and consumer ready forever => beats keep moving on both sides *)
 Progress     == (<>[](obs.coop)) => ([]<>(obs.srcfire))
 ProgressSink == (<>[](obs.coop)) => ([]<>(obs.sinkfire))
-(* nothing lost: with a consumer that is eventually always ready every beat that the accepted data determine is delivered *)
-NothingLost  == (<>[](obs.rdy)) => ([]<>(~obs.owed \/ obs.srcfire))
+(* nothing lost: with a consumer that is eventually always ready and a producer that does not stop in the middle of a *)
+(* packet every beat that the accepted data determine is delivered                                                   *)
+NothingLost  == (<>[](obs.rdy /\ obs.act)) => ([]<>(~obs.owed \/ obs.srcfire))
+(* the three progress clauses as ONE property (TLC names only a single violated temporal property reliably); *)
+(* the recorded replay is re-judged by the bounded forms, which name the clause                              *)
+Liveness == Progress /\ ProgressSink /\ NothingLost
 =============================================================================
